@@ -9,7 +9,11 @@ def int_texts(rng):
     base = [0, 1, -1, 2, 7, 10, 42, 99, 100, 12345, -5, 2**31, 2**63, 10**20]
     out = [str(b) for b in base]
     out += ["00", "007", "-0", "+7", " 8", "8 ", "1_0", "1__0", "_1", "1_", "1.0", "1e3", "0x10", "--1", "+-1",
-            "", " ", "-", "+", "1 2", "٣", "１２", "1\t", "1\n", "\n1", "12abc", "abc", "None", "True"]
+            "", " ", "-", "+", "1 2", "٣", "１２", "1\t", "1\n", "\n1", "12abc", "abc", "None", "True",
+            # (a percent sign means nothing in a field; it does to whoever formats a message with it)
+            "50%", "%d", "%", "²", "¹²", "①", "1²",      # digit-like characters that are no decimal digits: str.isdigit() says yes, int() says no
+            # numerals beyond the interpreter's limit for int <-> text conversion (4300 digits): no integer the library can print
+            "9" * 4301, "1e4300", "1" + "0" * 4300]
     for _ in range(6):
         n = rng.randrange(-10**6, 10**9)
         out.append(str(n))
@@ -18,7 +22,7 @@ def int_texts(rng):
 
 def float_texts(rng):
     out = ["0.0", "1.5", "-2.25", "1e3", "1E-3", ".5", "5.", "nan", "inf", "-inf", "Infinity", "NaN", "1_0.5",
-           " 1.5 ", "+1.5", "1.5.2", "e3", "1e", "0x1p3", "1,5", "", "abc", "0.1", "1e400", "-0.0", "3",
+           " 1.5 ", "+1.5", "1.5.2", "e3", "1e", "0x1p3", "1,5", "", "abc", "0.1", "1e400", "-0.0", "3", "1.5%", "%f",
            "123456789.123456789", "1e-400"]
     for _ in range(4):
         out.append(repr(rng.uniform(-1e6, 1e6)))
@@ -30,7 +34,7 @@ def string_texts(rng):
            "0", "-", ".", "ÄÖ", "日本語", "a,b", "#x", "\x00", "'q'", '"dq"', "\\n", "p.Val600Glu", "c.1799T>A",
            "ENST00000288602",
            # quote characters have no meaning in a MAF field (no spreadsheet-style quoting): kept verbatim
-           '"', '""', '"""q"""', '"a ""b"" c"', '"open', 'x"y', "'", '"a;b"']
+           '"', '""', '"""q"""', '"a ""b"" c"', '"open', 'x"y', "'", '"a;b"', "100%", "%s", "%", "%(x)s", "a%zb"]
     for _ in range(3):
         n = rng.randrange(1, 12)
         out.append("".join(rng.choice("abcXYZ012 _-.;") for _ in range(n)))
@@ -38,7 +42,7 @@ def string_texts(rng):
 
 
 def dna_texts(rng):
-    out = ["A", "C", "G", "T", "ACGT", "-", "", "N", "acgt", "AC-GT", "A C", "--", "ACGTN", "TTTTTTTTTT", "A\t", "Ａ"]
+    out = ["A", "C", "G", "T", "ACGT", "-", "", "N", "acgt", "AC-GT", "A C", "--", "ACGTN", "TTTTTTTTTT", "A\t", "Ａ", "A%", "%s"]
     for _ in range(3):
         out.append("".join(rng.choice("ACGT") for _ in range(rng.randrange(1, 30))))
     return out
@@ -68,7 +72,7 @@ def enum_texts(rng, members):
         out += case_variants(value) + case_variants(name)
         out += [value + " ", " " + value, value + ";" + value, name + "\t"]
     out += ["", "Null", "null", "NULL", "nul", "Unknown", "yes", "YES", "Yes", "yeſ", "no", "y", "n", "1", "0",
-            "2", "true", "TRUE", "falſe", "ＹＥＳ", "Y", "N"]
+            "2", "true", "TRUE", "falſe", "ＹＥＳ", "Y", "N", "%", "%s", "50%"]
     return out
 
 
